@@ -139,7 +139,7 @@ EXPORT errno_t _mbsrtowcs_s_chk(size_t *restrict retvalp,
     *retvalp = 0;
     CHK_SRC_NULL("mbsrtowcs_s", ps)
     CHK_SRCW_NULL_CLEAR("mbsrtowcs_s", srcp)
-    CHK_SRC_NULL("mbsrtowcs_s", *srcp)
+    CHK_SRCW_NULL_CLEAR("mbsrtowcs_s", *srcp)
     if (dest) {
         size_t destsz = dmax * sizeof(wchar_t);
         CHK_DMAX_ZERO("mbsrtowcs_s")
